@@ -65,6 +65,31 @@ def confirm(i):
     return res['ok']
 
 
+def check_scratch(i, props=None, tier='quick'):
+    """same as check() but against a scratch worktree (VERIF_REPO) - for use while something else needs /repo untouched"""
+    m = load(i)
+    props = props or [m['property']]
+    wt = '/tmp/seedchk-%d' % os.getpid()
+    sh(['git', '-C', '/repo', 'worktree', 'add', '--detach', wt, 'HEAD'])
+    try:
+        r = sh(['git', '-C', wt, 'apply', os.path.join(SEED, i, 'patch.diff')])
+        if r.returncode != 0:
+            print(i, 'patch does not apply:', r.stdout)
+            return
+        for p in props:
+            t0 = time.time()
+            r = sh([os.path.join(VERIF, 'check'), p, tier], env=dict(os.environ, VERIF_REPO=wt))
+            viol = 'VIOLATION property=' in r.stdout
+            sig = re.findall(r'failure signature: (\S+)', r.stdout)
+            m.setdefault('results_scratch', {})[p] = dict(detected=viol, exit=r.returncode, seconds=round(time.time() - t0, 1), signatures=sig[:3], tier=tier)
+            print('%-12s %s: %s %s (%.0fs) [scratch]' % (i, p, 'DETECTED' if viol else 'MISSED', sig[:2], time.time() - t0))
+            if r.returncode not in (0, 1) or (r.returncode == 1 and not viol):
+                print(r.stdout[-1500:])
+    finally:
+        sh(['git', '-C', '/repo', 'worktree', 'remove', '--force', wt])
+    save(i, m)
+
+
 def check(i, props=None, tier='quick'):
     m = load(i)
     props = props or [m['property']]
@@ -103,6 +128,8 @@ def main():
             confirm(i)
     elif a[0] == 'check':
         check(a[1], a[2:] or None)
+    elif a[0] == 'scratch':
+        check_scratch(a[1], a[2:] or None)
     elif a[0] == 'all':
         tier = a[a.index('--tier') + 1] if '--tier' in a else 'quick'
         for i in sorted(os.listdir(SEED)):
